@@ -134,6 +134,37 @@ fn cases(args: &Args, rng: &mut Rng) -> Vec<C12Case> {
         c.case.msgs[1].phase = 1; c.case.msgs[2].phase = 1;
         v.push(c);
     }
+    // scripted datagrams from a (foreign) peer: a second DCEP ACK in a new DATA chunk (Open stays single); a FORWARD-TSN that
+    // skips the middle of a message on the unordered channel 2 but names only stream 1 (nothing may be completed from the rest)
+    {
+        let a = vec![spec(2, Kind::RelUnord, false, 0), spec(1, Kind::RelOrd, true, 0)];
+        let b = vec![spec(1, Kind::RelOrd, true, 0)];
+        let mut c = mk("dcep-ack-twice", a, b, &[(0, 2, 100, 0), (0, 1, 50, 0), (1, 1, 9, 0)], "-", (None, None), vec![], false);
+        c.case.end = End::Script(0, 2);
+        v.push(c);
+        // FORWARD-TSN with a fragment in the reassembly buffer × (receive queue empty / holding a later fragment) ×
+        // (skipped TSNs received or not) × pairs (other stream / own stream / none) × unordered / ordered channel
+        let ab = vec![spec(2, Kind::RexUnord, true, 0), spec(1, Kind::RexOrd, true, 0)];
+        for (name, n) in [("forward-tsn-names-other-stream", 3u8), ("forward-tsn-fragment-queued-behind", 4), ("forward-tsn-skips-received-fragment", 5),
+            ("forward-tsn-no-pairs", 6), ("forward-tsn-ordered-channel", 7)] {
+            let mut c = mk(name, ab.clone(), ab.clone(), &[(0, 2, 100, 0), (0, 1, 50, 0), (0, 1, 60, 0)], "-", (None, if n == 5 { Some(0xFFFF_FFFA) } else { None }), vec![], false);
+            c.case.end = End::Script(1, n);
+            v.push(c);
+        }
+        // the real sender: the LAST DATA packet of a burst is lost on an unordered / ordered partially reliable channel while
+        // the rest of a 6-12 fragment message is still unsent (the FORWARD-TSN then finds nothing queued behind the gap)
+        for (ki, kind) in [Kind::RexUnord, Kind::RexOrd].into_iter().enumerate() {
+            for mr in [0u16, 1] { for nfrag in [6usize, 9, 12] { for last in [4u32, 9] {   // a burst is 5 full fragments (4 x 1200 budget, overshoot by one)
+                if last as usize >= nfrag { continue; }   // the lost packet belongs to the long message
+                if !args.tier_thorough && (ki + mr as usize + nfrag + last as usize) % 2 == 1 && !(ki == 0 && last == 4) { continue; }
+                let ch = vec![spec(2, kind, true, mr)];
+                let mut c = mk(&format!("pr-last-of-burst-lost-k{ki}-mr{mr}-f{nfrag}-t{last}"), ch.clone(), ch, &[(0, 2, 1172 * nfrag - 7, 0), (0, 2, 33, 0), (0, 2, 44, 0)],
+                    &format!("A.TSN.{last}.dropn{}", mr + 1), (Some(9000), Some(77)), vec![], false);
+                c.case.msgs[1].phase = 1; c.case.msgs[2].phase = 1;
+                v.push(c);
+            } } }
+        }
+    }
     // partial reliability under loss (the code's known PR defects show up here)
     v.push(mk("pr-unordered-fragmented-loss", vec![spec(2, Kind::RexUnord, true, 0)], vec![spec(2, Kind::RexUnord, true, 0)],
         &[(0, 2, 20_000, 0), (0, 2, 30, 0), (0, 2, 40, 0)], "A.DATA.2.drop", (Some(5000), Some(1000)), vec![], false));
@@ -234,7 +265,10 @@ fn oracle(c: &Case, o: &Outcome) -> Vec<(String, String)> {
             // every delivered message is one submitted message, used at most once
             let mut used = vec![false; submitted.len()];
             let mut order: Vec<usize> = vec![];
+            let mut injected_seen = 0usize;
             for (i, d) in delivered.iter().enumerate() {
+                // the complete two-byte message the FORWARD-TSN scripts inject at the end (it has to arrive, once)
+                if matches!(c.end, End::Script(s2, n) if s2 == peer && n >= 3) && d.as_ref() == [9u8, 9] { injected_seen += 1; continue; }
                 match (0..submitted.len()).find(|j| !used[*j] && submitted[*j].as_slice() == d.as_ref()) {
                     Some(j) => { used[j] = true; order.push(j); }
                     None => {
@@ -245,6 +279,9 @@ fn oracle(c: &Case, o: &Outcome) -> Vec<(String, String)> {
                     }
                 }
             }
+            if let End::Script(s2, n) = c.end { if s2 == peer && o.ended && [4u8, 5, 6].contains(&n) && ch.id == 2 && side != peer && injected_seen != 1 {
+                fails.push(("pr:complete-message-after-forward-tsn-not-delivered-once".into(), format!("{who}: the complete message sent after the FORWARD-TSN was delivered {injected_seen} times")));
+            } }
             // ordered channels: the messages of one sender task arrive in that task's order
             let mine: Vec<&Msg> = c.msgs.iter().filter(|m| m.side == side && m.chan == ch.id).collect();
             let ambiguous = mine.iter().any(|a| mine.iter().any(|b| a.task != b.task && a.data == b.data));
@@ -340,6 +377,7 @@ pub fn run(args: &Args) {
         println!("case: {}", c12_text(&c));
         println!("connected={} elapsed={}ms send_errors={:?}", o.connected, o.elapsed_ms, o.send_errors);
         for side in 0..2 { let l = replay_lines(side, &c.case, &o).1; println!("impl[{}]: {}", ["A", "B"][side], &l[..l.len().min(1500)]); }
+        if std::env::var("VERIF_DUMP").is_ok() { for side in 0..2 { println!("ops[{}]: {}", ["A", "B"][side], replay_lines(side, &c.case, &o).0); } }
         for (k, d) in oracle(&c.case, &o) { println!("ORACLE-FAIL {k} {d}"); }
         return;
     }
